@@ -10,13 +10,15 @@ from __future__ import annotations
 
 from typing import Any
 
-from detsim import corrupt, gen, rng
+from detsim import corrupt, env, gen, minimize, rng
+from detsim.sched import HarnessError, Scheduler
 
 PROP = "C18"
 LEVEL = "exploration"
 RUNS = {"quick": 1600, "thorough": 30000}
 BUDGET_S = {"quick": 90, "thorough": 1500}
 CASES_PER_RUN = 120
+CASES_PER_LONG_RUN = 420
 RULE = ("each evaluation is one text: a generated well-formed chart damaged by a seeded sequence "
         "of 1-8 storage faults (line drop/dup/swap/move/insert, char insert/delete/replace, "
         "truncation) or a text assembled from a fragment catalogue, kept inside the property's "
@@ -31,16 +33,47 @@ ASSUMPTIONS = [
 ]
 
 
+def _concurrent_plan(seed: int) -> dict[str, Any]:
+    """Renderers racing with other read-only users of one freshly parsed (cold) chart."""
+    from checks import c19
+
+    g = rng.stream(seed, "gen")
+    p = rng.stream(seed, "plan")
+    s = rng.stream(seed, "sched")
+    doc = gen.gen_doc(g, max_tracks=3, small=g.random() < 0.5)
+    doc["unknown"] = []
+    present = [t[0] for t in doc["tracks"]]
+    ticks = sorted({t for t, _ in doc["tempos"]} | {gr["tick"] for tr in doc["tracks"] for gr in tr[1]} | {0})
+    n_clients = p.choice([2, 2, 3])
+    clients = []
+    for ci in range(n_clients):
+        kinds = ["render"] if ci == 0 else p.choice([["nps", "prop", "getitem2"], ["prop", "render"],
+                                                     ["nps", "hash", "compare"], ["render", "nps"]])
+        clients.append([c19._gen_op(p, doc, present, ticks, kinds) for _ in range(p.randint(2, 6))])
+    schedule: dict[str, Any] = {"mode": "geometric", "seed": s.getrandbits(32),
+                                "gap": s.choice([2, 3, 5, 10, 30])}
+    if s.random() < 0.25:
+        schedule = {"mode": "writes", "seed": s.getrandbits(32), "p": s.choice([0.1, 0.3, 0.6]),
+                    "hold": s.choice([20, 200, 1000])}
+    elif s.random() < 0.3:
+        schedule["granularity"] = "opcode"
+    return {"property": PROP, "seed": seed, "mode": "concurrent-render", "text": gen.render(doc),
+            "present": present, "clients": clients, "schedule": schedule, "cases": [], "discarded": 0}
+
+
 def make_plan(seed: int, tier: str, index: int) -> dict[str, Any]:
+    if index % 8 == 3:
+        return _concurrent_plan(seed)
     g = rng.stream(seed, "gen")
     f = rng.stream(seed, "fault")
     cases = []
     discarded = 0
     base_doc = None
-    for k in range(CASES_PER_RUN):
+    long_run = index % 8 == 7
+    for k in range(CASES_PER_LONG_RUN if long_run else CASES_PER_RUN):
         if k % 6 == 0 or base_doc is None:
-            base_doc = gen.gen_doc(g, small=g.random() < 0.6)
-        if f.random() < 0.3:
+            base_doc = gen.gen_doc(g, small=g.random() < (0.2 if long_run else 0.6))
+        if f.random() < (0.05 if long_run else 0.3):
             lines = corrupt.assemble(f)
             ops: list[dict[str, Any]] = []
             for _ in range(f.choice([0, 0, 1, 2])):
@@ -58,7 +91,7 @@ def make_plan(seed: int, tier: str, index: int) -> dict[str, Any]:
         base = gen.render(base_doc, newline="\n").split("\n")
         lines = list(base)
         ops = []
-        keep_structure = f.random() < 0.5
+        keep_structure = long_run or f.random() < 0.5
         for _ in range(f.randint(1, 8)):
             op = corrupt.gen_op(f, lines)
             if keep_structure:
@@ -85,7 +118,8 @@ def make_plan(seed: int, tier: str, index: int) -> dict[str, Any]:
             ops.append(op)
         cases.append({"kind": "damaged", "text": nl.join(lines), "fired": lines != base,
                       "ops": [o["kind"] for o in ops]})
-    return {"property": PROP, "seed": seed, "cases": cases, "discarded": discarded}
+    return {"property": PROP, "seed": seed, "mode": "long-history" if long_run else "batch",
+            "cases": cases, "discarded": discarded}
 
 
 def _render_all(chart: Any) -> None:
@@ -106,9 +140,77 @@ def _render_all(chart: Any) -> None:
         repr(e)
 
 
+def _execute_concurrent(plan: dict[str, Any]) -> dict[str, Any]:
+    from checks import c19
+    from detsim import world
+    from detsim.runner import Discard
+
+    world.install_log_sink()
+    try:
+        chart = world.parse_text(plan["text"])
+        twin = world.parse_text(plan["text"])
+    except Exception as e:  # noqa: BLE001
+        raise Discard("chart-rejected:" + type(e).__name__) from e
+    n_clients = len(plan["clients"])
+    sched = Scheduler(plan["schedule"], n_clients, env.PKG_DIR,
+                      preempt_lines=not env.package_uses_locks_or_threads())
+    violations: list[dict[str, Any]] = []
+    n_render = 0
+
+    def body_for(ci: int) -> Any:
+        def body(client: Any) -> None:
+            nonlocal n_render
+            for k, op in enumerate(plan["clients"][ci]):
+                sched.begin_op(client, k)
+                err: BaseException | None = None
+                try:
+                    c19.do_op(chart, twin, op)
+                except HarnessError:
+                    raise
+                except BaseException as e:  # noqa: BLE001
+                    err = e
+                sched.end_op(client)
+                with sched.atomic(client):
+                    sched.record("op", ci, k, op["op"], type(err).__name__ if err else "ok")
+                    if op["op"] == "render":
+                        n_render += 1
+                        if err is not None and not violations:
+                            violations.append({
+                                "sig": f"C18/render/{type(err).__name__}/concurrent",
+                                "detail": f"client {ci} op {k}: {op} raised {type(err).__name__}: "
+                                          f"{str(err)[:200]!r} while other readers used the chart"})
+        return body
+
+    harness_error = None
+    try:
+        sched.run([body_for(i) for i in range(n_clients)])
+    except HarnessError as e:
+        harness_error = str(e)
+    world.drain_log()
+    sched.record("violations", [v["sig"] for v in violations])
+    return {
+        "violations": violations,
+        "digest": sched.events.hexdigest()[:32],
+        "evals": n_render,
+        "nontrivial": [rng.digest(plan)] if sched.mid_op_switches else [],
+        "counters": {"concurrent_render_ops": n_render},
+        "sim_steps": sched.global_step,
+        "ops": sum(len(c) for c in plan["clients"]),
+        "switches": sched.switches,
+        "mid_op_switches": sched.mid_op_switches,
+        "interleaving": sched.interleaving.hexdigest()[:32],
+        "sched_mode": sched.mode,
+        "sub_batch": "concurrent-render",
+        "harness_error": harness_error,
+        "explicit_schedule": sched.explicit_schedule(),
+    }
+
+
 def execute(plan: dict[str, Any]) -> dict[str, Any]:
     from detsim import world
 
+    if plan.get("mode") == "concurrent-render":
+        return _execute_concurrent(plan)
     world.install_log_sink()
     import hashlib
 
@@ -166,11 +268,22 @@ def execute(plan: dict[str, Any]) -> dict[str, Any]:
         "discarded": {"out_of_bounds_step": int(plan.get("discarded", 0))},
         "sample": sample,
         "ops": len(plan["cases"]),
-        "sub_batch": "storage-faults+assembly",
+        "sub_batch": "storage-faults+assembly" + ("/long-history" if plan.get("mode") == "long-history" else ""),
     }
 
 
 def shrink(plan: dict[str, Any]):
+    if plan.get("mode") == "concurrent-render":
+        clients = plan["clients"]
+        if len(clients) > 2:
+            for i in range(len(clients)):
+                yield {**plan, "clients": clients[:i] + clients[i + 1:]}
+        for ci, ops in enumerate(clients):
+            if len(ops) > 1:
+                for i in range(len(ops)):
+                    yield {**plan, "clients": clients[:ci] + [ops[:i] + ops[i + 1:]] + clients[ci + 1:]}
+        yield from minimize.shrink_schedule(plan)
+        return
     cases = plan["cases"]
     if len(cases) > 1:
         # single cases first (a history-free failure reduces to one text)
